@@ -32,15 +32,31 @@
   * PSD completion: the index-level model writes only positions outside every clique block (in
     range, covering the whole complement), hence the data-level model (LAPACK / BLAS results as an
     explicit parameter) returns a matrix that agrees with the input on every clique block;
-  * the data flow of `DefaultProblemData::new`.
+  * the data flow of `DefaultProblemData::new`;
+  * equivalence of the compact problem with the original one: `compact_equiv` (⇒) and
+    `compact_equiv_converse` (⇐: for every solution of the original equalities with
+    `S = Σ_K E_Kᵀ S_K E_K` overlap variables exist that make the compact equalities hold — flow on
+    the clique forest, `forest_flow`), `compact_b` (`b_new[NewRow r] = b[r]`), `compact_objective`
+    (`decomp_augment_compact`: zero cost for the overlap variables, same objective),
+    `compact_roundtrip` / `standard_roundtrip` (a solution of the transformed equalities, mapped
+    back by `decomp_reverse_*` on the cone list / maps of the transformation, solves the original
+    equalities, original lengths);
+  * the hypotheses are C17's conclusions: `valid_pattern_of_clique_tree` (`ValidCliqueTree` with
+    more than one clique ⇒ `ValidPattern`, `StdPatternOK`, coverage), `decomposition_of_analysis_*`
+    (output of `SparsityPattern::new`, strategies `none` / `parent_child`), `hypotheses_of_analysis`
+    (`StdOK`, `ValidInfo`), `compact_hyp_of_analysis` (`CompactHyp`);
+  * the completion recurrence: `completion_step_values`, `completion_recurrence` (IF the LAPACK /
+    BLAS step returns `Wηα · Y` with `Y` satisfying its contract THEN `Wην = Wηα Y = (Wνη)ᵀ` holds on
+    the completed matrix for every clique).
 
   NOT carried by a theorem (checked on every run by the correspondence with the model and
-  by the oracles of `harness/src/bin/c18.rs`): the converse of `compact_equiv` (for an original
-  solution, overlap variables making the compact equalities hold exist — a flow argument on the
-  tree); that `ValidPattern` follows from C17's `ValidCliqueTree` (both restate the oracle's
-  clauses); that a PSD completion exists at all is the Grone–Johnson–Sá–Wolkowicz theorem, which
-  is ASSUMED (cited), not proved here; the end-to-end clause "same verdict and objective with
-  decomposition on / off".
+  by the oracles of `harness/src/bin/c18.rs`): the clique-graph merge strategy is covered by
+  C17's validity oracle only (no `decomposition_of_analysis` theorem for it); that the completion
+  formula yields a positive semidefinite matrix is the Grone–Johnson–Sá–Wolkowicz theorem, which is
+  ASSUMED (cited), not proved here, and the numerical contracts of LAPACK's Cholesky / SVD solve
+  are hypotheses; the cone membership part of the equivalence (`S_K ⪰ 0` for all `K` ⇔ `S` has a
+  PSD completion — Agler's theorem) and the end-to-end clause "same verdict and objective with
+  decomposition on / off" (oracle `e2e`).
 -/
 import ClarabelModel.Chordal.AugCompact
 import ClarabelProofs.Lemmas.ChordalDecomp
@@ -49,6 +65,10 @@ import ClarabelProofs.Lemmas.ChordalCompactExample
 import ClarabelProofs.Lemmas.ChordalReverseCompactAll
 import ClarabelProofs.Lemmas.ChordalCompactBridge
 import ClarabelProofs.Lemmas.ChordalCompletion
+import ClarabelProofs.Lemmas.ChordalFromAnalysis
+import ClarabelProofs.Lemmas.ChordalRoundtrip
+import ClarabelProofs.Lemmas.ChordalCompactConverse
+import ClarabelProofs.Lemmas.ChordalCompletionRecurrence
 
 namespace Clarabel.C18
 open Clarabel Clarabel.Chordal Clarabel.Chordal.ChordalInfo
@@ -500,7 +520,7 @@ all rows of the compact problem holding (a copy of) the original row `r` — the
 cone that is not decomposed, the rows of the entry in ALL clique blocks containing it for a
 decomposed cone: `S = Σ_K E_Kᵀ S_K E_K`.  The overlap variables drop out (`compact_overlap_pairs`:
 both rows of an overlap column hold the same original entry).
-NOT proved: the converse (existence of overlap variables for a given original solution). -/
+The converse is `compact_equiv_converse`. -/
 theorem compact_equiv [Ring α] [BEq α] (ci : ChordalInfo) (A : Csc α) (b : Array α)
     (H : CompactHyp ci A (bIndOf b)) (hnz : A.colptr.getD A.n 0 ≤ A.nzval.size)
     (hpos : A.colptr.getD A.n 0 + 2 * ci.ovBefore ci.initCones.size ≠ 0) :
@@ -756,5 +776,390 @@ example : ∃ B, psdComplete (α := Nat) (fun _ _ => .ok (fun _ => 7)) #[1, 2, 0
     exPattern.ordering.size exPattern = .ok B :=
   completion_no_panic _ (fun _ _ => ⟨_, rfl⟩) exPattern_valid _ rfl
 
+
+/-! ## C18's hypotheses are C17's conclusions (`ClarabelProofs/Lemmas/ChordalFromAnalysis.lean`)
+
+C17 proves that `SparsityPattern::new` (strategies `none`, `parent_child`) returns a tree satisfying
+`ValidCliqueTree` (`C17.analysis_none_valid`, `C17.analysis_parent_child_valid`).  The theorems of
+this section turn that conclusion into the hypotheses used above: `ValidPattern` / `ValidInfo`
+(compact form, reversal, completion), `StdPatternOK` / `StdOK` (standard form) and coverage. -/
+
+/-- [S] `valid_pattern_of_clique_tree`: a clique tree (with `ordering`) that satisfies C17's
+validity predicate for the pattern entries `edges` on `n` vertices and has more than one clique
+(single-clique patterns are never stored) satisfies `ValidPattern`, `StdPatternOK … n`, has
+`|ordering| = n`, and every pattern entry lies in the block of some clique (`cliqueO i`: the
+sorted clique in original coordinates, the index set of block `i` in `compact_rows`). -/
+theorem valid_pattern_of_clique_tree (n : Nat) (edges : List (Nat × Nat)) (p : SPattern)
+    (h : ValidCliqueTree n edges p.sntree p.ordering) (hne : p.sntree.nCliques ≠ 1) :
+    ValidPattern p ∧ StdPatternOK p n ∧ p.ordering.size = n ∧
+      ∀ e ∈ edges, ∃ i, i < p.sntree.nCliques ∧ e.1 ∈ p.cliqueO i ∧ e.2 ∈ p.cliqueO i :=
+  DecompReady.of_valid n edges p h hne
+
+/-- non-vacuity: the tree that the model of the analysis returns for the path graph `0 – 1 – 2`
+(`exValidTree`, C17) -/
+example := valid_pattern_of_clique_tree 3 [(0, 1), (1, 2)] ⟨exValidTree, #[0, 2, 1], 0⟩
+  ((validCliqueTreeB_iff _ _ _ _).1 exValidTree_ok) (by decide)
+
+/-- [S] `decomposition_of_analysis` (strategy `none`): for a filled pattern `L`, an `ordering` that
+is a permutation and pattern entries `edges` that are entries of `L` (the hypotheses of C17's
+pipeline theorems, evaluated by its driver on every run), `SparsityPattern::new(L, ordering,
+"none")` returns without panic a tree that, whenever it is stored (more than one clique), satisfies
+every pattern hypothesis of the theorems of this file. -/
+theorem decomposition_of_analysis_none {L : LPat} (h : L.Filled) (ordering : Array Nat)
+    (ho : ordering.toList.Perm (List.range L.n)) (edges : List (Nat × Nat))
+    (hedges : ∀ e ∈ edges, ∃ a b, a < L.n ∧ b < L.n ∧ ordering[a]? = some e.1 ∧
+        ordering[b]? = some e.2 ∧ (b ∈ L.col a ∨ a ∈ L.col b)) (oi : Nat) :
+    ∃ tf ord', sparsityPatternNew L ordering "none" = .ok (tf, ord') ∧
+      (tf.nCliques ≠ 1 →
+        ValidPattern ⟨tf, ord', oi⟩ ∧ StdPatternOK ⟨tf, ord', oi⟩ L.n ∧ ord'.size = L.n ∧
+        ∀ e ∈ edges, ∃ i, i < tf.nCliques ∧
+          e.1 ∈ (⟨tf, ord', oi⟩ : SPattern).cliqueO i ∧ e.2 ∈ (⟨tf, ord', oi⟩ : SPattern).cliqueO i) :=
+  Clarabel.Chordal.decomposition_of_analysis_none h ordering ho edges hedges oi
+
+/-- [S] `decomposition_of_analysis` (strategy `parent_child`): the same for the tree after the
+whole merge loop. -/
+theorem decomposition_of_analysis_parent_child {L : LPat} (h : L.Filled) (ordering : Array Nat)
+    (ho : ordering.toList.Perm (List.range L.n)) (edges : List (Nat × Nat))
+    (hedges : ∀ e ∈ edges, ∃ a b, a < L.n ∧ b < L.n ∧ ordering[a]? = some e.1 ∧
+        ordering[b]? = some e.2 ∧ (b ∈ L.col a ∨ a ∈ L.col b)) (oi : Nat) :
+    ∃ tf ord', sparsityPatternNew L ordering "parent_child" = .ok (tf, ord') ∧
+      (tf.nCliques ≠ 1 →
+        ValidPattern ⟨tf, ord', oi⟩ ∧ StdPatternOK ⟨tf, ord', oi⟩ L.n ∧ ord'.size = L.n ∧
+        ∀ e ∈ edges, ∃ i, i < tf.nCliques ∧
+          e.1 ∈ (⟨tf, ord', oi⟩ : SPattern).cliqueO i ∧ e.2 ∈ (⟨tf, ord', oi⟩ : SPattern).cliqueO i) :=
+  Clarabel.Chordal.decomposition_of_analysis_pc h ordering ho edges hedges oi
+
+/-- the filled pattern of the path graph `0 – 1 – 2` under the ordering `[2, 0, 1]` (`find_graph`
++ QDLDL's symbolic factorisation return it; the model of the analysis evaluates on it to
+`(exValidTree, [0, 2, 1])`, two cliques) -/
+def exPathL : LPat := { n := 3, colptr := #[0, 1, 2, 2], rowval := #[2, 2] }
+
+/-- non-vacuity of `decomposition_of_analysis_*`: the hypotheses hold for the path graph -/
+example : exPathL.Filled ∧ (#[2, 0, 1] : Array Nat).toList.Perm (List.range exPathL.n) ∧
+    ∀ e ∈ [(0, 1), (1, 2)], ∃ a b, a < exPathL.n ∧ b < exPathL.n ∧ (#[2, 0, 1] : Array Nat)[a]? = some e.1 ∧
+      (#[2, 0, 1] : Array Nat)[b]? = some e.2 ∧ (b ∈ exPathL.col a ∨ a ∈ exPathL.col b) :=
+  ⟨(LPat.filledB_iff _).1 (by decide), by decide,
+    LPat.edgesInB_sound exPathL #[2, 0, 1] [(0, 1), (1, 2)] (by decide)⟩
+
+/-- [S] `hypotheses_of_analysis`: if every stored pattern of the `ChordalInfo` is an analysis
+result (`FromAnalysis ci E`: output of `SparsityPattern::new` with strategy `none` or
+`parent_child` on a filled pattern with a permutation ordering, more than one clique, for a PSD
+cone of the pattern's dimension, `E c` = pattern entries of cone `c`, all entries of the filled
+pattern) then `ci.StdOK` — the hypothesis of `H_no_panic`, `standard_blocks`,
+`standard_equiv_blocks`, `reverse_standard_blocks` —, `ValidInfo ci` — the pattern part of
+`CompactHyp`, hypothesis of `compact_rows_exactly_once`, `reverse_compact`, … — and the cliques of
+the pattern used for cone `c` cover `E c`. -/
+theorem hypotheses_of_analysis {ci : ChordalInfo} {E : Nat → List (Nat × Nat)}
+    (h : FromAnalysis ci E) :
+    ci.StdOK ∧ ValidInfo ci ∧
+    (∀ c, c < ci.initCones.size → ∀ p, ci.patAt c = some p →
+      ∀ e ∈ E c, ∃ i, i < p.sntree.nCliques ∧ e.1 ∈ p.cliqueO i ∧ e.2 ∈ p.cliqueO i) :=
+  info_of_analysis h
+
+/-- [S] `compact_hyp_of_analysis`: with patterns from the analysis, the hypothesis bundle
+`CompactHyp` of `compact_rows` / `compact_assembled` / `compact_equiv` reduces to facts about the
+data alone: `A` well formed with at least one column, the stored rows of `A` and the non-zeros of
+`b` lie in the cones, and those inside a decomposed cone are pattern entries handed to the
+analysis (`find_aggregate_sparsity` collects exactly these rows). -/
+theorem compact_hyp_of_analysis {ci : ChordalInfo} {E : Nat → List (Nat × Nat)}
+    (h : FromAnalysis ci E) (A : Csc α) (bInd : Array Nat) (wf : CscWF A) (ncols : 0 < A.n)
+    (bsorted : StrictOn bInd 0 bInd.size)
+    (rowsA : ∀ slot, slot < A.colptr.getD A.n 0 →
+      ∃ c, c < ci.initCones.size ∧ ci.rs c ≤ A.rowval.getD slot 0 ∧ A.rowval.getD slot 0 < ci.rs c + ci.nv c)
+    (rowsB : ∀ slot, slot < bInd.size →
+      ∃ c, c < ci.initCones.size ∧ ci.rs c ≤ bInd.getD slot 0 ∧ bInd.getD slot 0 < ci.rs c + ci.nv c)
+    (entA : ∀ slot, slot < A.colptr.getD A.n 0 → ∀ c, c < ci.initCones.size → (ci.patAt c).isSome →
+      ci.rs c ≤ A.rowval.getD slot 0 → A.rowval.getD slot 0 < ci.rs c + ci.nv c →
+      upperTriangularIndexToCoord (A.rowval.getD slot 0 - ci.rs c) ∈ E c)
+    (entB : ∀ slot, slot < bInd.size → ∀ c, c < ci.initCones.size → (ci.patAt c).isSome →
+      ci.rs c ≤ bInd.getD slot 0 → bInd.getD slot 0 < ci.rs c + ci.nv c →
+      upperTriangularIndexToCoord (bInd.getD slot 0 - ci.rs c) ∈ E c) :
+    CompactHyp ci A bInd :=
+  compactHyp_of_analysis h A bInd wf ncols bsorted rowsA rowsB entA entB
+
+/-- non-vacuity of `hypotheses_of_analysis` / `compact_hyp_of_analysis`: the `ChordalInfo` of one
+`3 × 3` PSD cone whose pattern is the analysis result for the path graph satisfies `FromAnalysis`
+as soon as that result has more than one clique (it has two: the driver evaluates the model on this
+input to `exValidTree`; the kernel cannot unfold the merge sort inside the model). -/
+example : ∃ tf ord', sparsityPatternNew exPathL #[2, 0, 1] "none" = .ok (tf, ord') ∧
+    (tf.nCliques ≠ 1 →
+      FromAnalysis { initDims := (1, 6), initCones := #[.psd 3], spatterns := #[⟨tf, ord', 0⟩] }
+        (fun _ => [(0, 1), (1, 2)])) := by
+  have hf : exPathL.Filled := (LPat.filledB_iff _).1 (by decide)
+  have ho : (#[2, 0, 1] : Array Nat).toList.Perm (List.range exPathL.n) := by decide
+  have he := LPat.edgesInB_sound exPathL #[2, 0, 1] [(0, 1), (1, 2)] (by decide)
+  obtain ⟨tf, ord', h1, _⟩ := decomposition_of_analysis_none hf #[2, 0, 1] ho _ he 0
+  refine ⟨tf, ord', h1, fun hne k p hk => ?_⟩
+  have hk0 : k = 0 := by
+    rcases Nat.eq_zero_or_pos k with h | h
+    · exact h
+    · exfalso
+      have : (#[(⟨tf, ord', 0⟩ : SPattern)])[k]? = none := by
+        rw [Array.getElem?_eq_none]; simp; omega
+      rw [this] at hk; cases hk
+  subst hk0
+  have hp : p = ⟨tf, ord', 0⟩ := by
+    have : (#[(⟨tf, ord', 0⟩ : SPattern)])[0]? = some ⟨tf, ord', 0⟩ := rfl
+    rw [this] at hk; exact (Option.some.inj hk).symm
+  subst hp
+  exact ⟨hne, exPathL, #[2, 0, 1], "none", Or.inl rfl, hf, ho, he, h1, rfl⟩
+
+/-! ## the compact problem is EQUIVALENT to the original one
+(`ClarabelProofs/Lemmas/ChordalCompactConverse.lean`, `ChordalForestFlow.lean`, `ChordalRoundtrip.lean`) -/
+
+open Classical in
+/-- [F] `compact_equiv_converse` (original ⇒ compact; ring): let `x` be values of the `n` original
+variables and `st` a slack for every row of the compact problem (a block `S_K` per clique, the slack
+itself for a cone that is not decomposed).  If they satisfy the ORIGINAL equalities with
+`S = Σ_K E_Kᵀ S_K E_K`, i.e. `(A x)[r] + Σ_{ρ : OrigOf ρ r} st[ρ] = b[r]` for every row `r`, then
+there are values of the overlap variables — an extension `xx` of `x` to the `n + n_overlaps`
+columns — such that `(xx, st)` satisfies EVERY equality of the compact problem.  (The overlap
+columns are the incidence matrix of the forest whose trees are the cliques containing one matrix
+entry — running intersection —; the variables are the partial sums of the residual over subtrees,
+determined leaf to root: `forest_flow`.)  With `compact_equiv` this is the equivalence of the two
+sets of equalities. -/
+theorem compact_equiv_converse [Ring α] [BEq α] (ci : ChordalInfo) (A : Csc α) (b : Array α)
+    (H : CompactHyp ci A (bIndOf b)) (hnz : A.colptr.getD A.n 0 ≤ A.nzval.size)
+    (hpos : A.colptr.getD A.n 0 + 2 * ci.ovBefore ci.initCones.size ≠ 0) :
+    ∃ tr, findCompactTriplets ci A b = .ok tr ∧
+      ∀ (x st : Nat → α),
+        (∀ r,
+          (∑ k ∈ Finset.range (A.colptr.getD A.n 0),
+              if A.rowval.getD k 0 = r then A.nzval.getD k 0 * x (tr.AaJ.getD k 0) else 0) +
+            (∑ ρ ∈ Finset.range tr.dim, if OrigOf ci ρ r then st ρ else 0) =
+          ∑ k ∈ Finset.range tr.bInd.size, if tr.bInd.getD k 0 = r then tr.bVal.getD k 0 else 0) →
+        ∃ xx : Nat → α, (∀ j, j < A.n → xx j = x j) ∧
+          ∀ ρ, ρ < tr.dim →
+            (∑ k ∈ Finset.range tr.AaI.size,
+                if tr.AaI.getD k 0 = ρ then tr.AaV.getD k 0 * xx (tr.AaJ.getD k 0) else 0) + st ρ =
+            ∑ k ∈ Finset.range tr.bInd.size, if tr.baI.getD k 0 = ρ then tr.bVal.getD k 0 else 0 :=
+  Clarabel.Chordal.compact_equiv_converse ci A b H hnz hpos
+
+example : ∃ tr, findCompactTriplets exCi exA exb = .ok tr := by
+  obtain ⟨tr, h, _⟩ := compact_equiv_converse exCi exA exb exHyp ex_hnz ex_hpos
+  exact ⟨tr, h⟩
+
+open Classical in
+/-- [F] the abstract flow lemma behind `compact_equiv_converse`: on a rooted forest (nodes `< D`,
+edge `o < N` from the child `c o` to its parent `p o < c o`, every node the child of at most one
+edge, `cls ρ r`: node `ρ` belongs to tree `r`, one root per tree) a vector `res` that sums to zero
+on every tree is in the range of the edge–node incidence matrix. -/
+theorem forest_flow [AddCommGroup α] (D N : Nat) (c p : Nat → Nat) (res : Nat → α)
+    (cls : Nat → Nat → Prop)
+    (hpc : ∀ o, o < N → p o < c o) (hcD : ∀ o, o < N → c o < D)
+    (hcinj : ∀ o o', o < N → o' < N → c o = c o' → o = o')
+    (hcl : ∀ o, o < N → ∀ r, (cls (c o) r ↔ cls (p o) r))
+    (hcov : ∀ ρ, ρ < D → ∃ r, cls ρ r)
+    (hroot : ∀ r ρ1 ρ2, ρ1 < D → ρ2 < D → cls ρ1 r → cls ρ2 r →
+        (∀ o, o < N → c o ≠ ρ1) → (∀ o, o < N → c o ≠ ρ2) → ρ1 = ρ2)
+    (hsum : ∀ r, (∑ ρ ∈ Finset.range D, if cls ρ r then res ρ else 0) = 0) :
+    ∃ w : Nat → α, ∀ ρ, ρ < D →
+      (∑ o ∈ Finset.range N, ((if c o = ρ then w o else 0) - (if p o = ρ then w o else 0))) = res ρ :=
+  Clarabel.Chordal.forest_flow D N c p res cls hpc hcD hcinj hcl hcov hroot hsum
+
+/-- non-vacuity of `forest_flow`: two nodes, one edge `1 → 0`, residual `(-5, 5)` -/
+example : ∃ w : Nat → Int, ∀ ρ, ρ < 2 →
+    (∑ o ∈ Finset.range 1, ((if (fun _ => 1) o = ρ then w o else 0) - (if (fun _ => 0) o = ρ then w o else 0))) =
+      (fun ρ => if ρ = 0 then (-5 : Int) else 5) ρ :=
+  forest_flow 2 1 (fun _ => 1) (fun _ => 0) (fun ρ => if ρ = 0 then (-5 : Int) else 5) (fun _ r => r = 0)
+    (fun _ _ => by decide) (fun _ _ => by decide) (fun o o' ho ho' _ => by omega)
+    (fun _ _ _ => Iff.rfl) (fun _ _ => ⟨0, rfl⟩)
+    (fun r ρ1 ρ2 h1 h2 _ _ n1 n2 => by
+      have e1 : ρ1 = 0 := by
+        rcases Nat.eq_zero_or_pos ρ1 with h | h
+        · exact h
+        · exact absurd (show (1 : Nat) = ρ1 by omega) (n1 0 (by decide))
+      have e2 : ρ2 = 0 := by
+        rcases Nat.eq_zero_or_pos ρ2 with h | h
+        · exact h
+        · exact absurd (show (1 : Nat) = ρ2 by omega) (n2 0 (by decide))
+      rw [e1, e2])
+    (fun r => by
+      by_cases h : r = 0
+      · subst h; simp [Finset.sum_range_succ]
+      · simp [h])
+
+/-- [S] `compact_b`: **`b_new[NewRow r] = b[r]`** as an equation — on valid input the right-hand
+side of the compact problem holds `b[r]` in the new row of EVERY original row `r` (zero or not;
+different rows have different new rows, `compact_rows_exactly_once`) and, by `compact_assembled`,
+`0` in every other row. -/
+theorem compact_b [Ring α] [BEq α] [LawfulBEq α] (ci : ChordalInfo) (A : Csc α)
+    (b : Array α) (H : CompactHyp ci A (bIndOf b)) (hnz : A.colptr.getD A.n 0 ≤ A.nzval.size)
+    (hpos : A.colptr.getD A.n 0 + 2 * ci.ovBefore ci.initCones.size ≠ 0) :
+    ∃ tr Anew bnew, findCompactTriplets ci A b = .ok tr ∧
+      findCompactAbAndCones ci A b = .ok (Anew, bnew, tr.conesNew, tr.coneMaps) ∧
+      bnew.size = tr.dim ∧
+      ∀ r v, NewRow ci r v → bnew.getD v 0 = b.getD r 0 :=
+  compact_b_eq ci A b H hnz hpos
+
+example : ∃ bnew : Array Int, ∀ r v, NewRow exCi r v → bnew.getD v 0 = exb.getD r 0 := by
+  obtain ⟨_, _, bnew, _, _, _, h⟩ := compact_b exCi exA exb exHyp ex_hnz ex_hpos
+  exact ⟨bnew, h⟩
+
+/-- [S] `compact_objective`: `decomp_augment_compact` on valid input does not panic, returns the
+`A_new`, `b_new`, cones and cone maps of `find_compact_A_b_and_cones`, adds exactly `n_overlaps`
+variables, and gives them ZERO cost: `P_new` is `P` followed by `n_overlaps` empty columns
+(`blockdiag(P, 0)`) and `q_new = (q, 0, …, 0)`;  [F] hence `⟨q_new, (x, w)⟩ = ⟨q, x⟩` for every
+value `w` of the overlap variables — the compact problem has the objective of the original one. -/
+theorem compact_objective [Ring α] [BEq α] (ci : ChordalInfo) (P : Csc α) (q : Array α)
+    (A : Csc α) (b : Array α) (H : CompactHyp ci A (bIndOf b)) (hnz : A.colptr.getD A.n 0 ≤ A.nzval.size)
+    (hpos : A.colptr.getD A.n 0 + 2 * ci.ovBefore ci.initCones.size ≠ 0)
+    (hcp : P.colptr.size = P.n + 1) :
+    ∃ tr Anew bnew Pnew qnew, findCompactTriplets ci A b = .ok tr ∧
+      findCompactAbAndCones ci A b = .ok (Anew, bnew, tr.conesNew, tr.coneMaps) ∧
+      decompAugmentCompact ci P q A b = .ok (Pnew, qnew, Anew, bnew, tr.conesNew, tr.coneMaps) ∧
+      Anew.n = A.n + tr.nOverlaps ∧
+      Pnew.m = P.m + tr.nOverlaps ∧ Pnew.n = P.n + tr.nOverlaps ∧
+      (∀ j, j < P.n → Pnew.col j = P.col j) ∧
+      (∀ j, j < tr.nOverlaps → Pnew.col (P.n + j) = []) ∧
+      qnew = q ++ Array.replicate tr.nOverlaps 0 ∧
+      ∀ x w : Array α, x.size = q.size → Vec.dot qnew (x ++ w) = Vec.dot q x := by
+  obtain ⟨tr, Anew, bnew, h1, h2, h3, h4⟩ := decompAugmentCompact_spec ci P q A b H hnz hpos
+  obtain ⟨p1, p2, p3, p4⟩ := padSquare_cols P tr.nOverlaps hcp
+  exact ⟨tr, Anew, bnew, _, _, h1, h2, h4, h3, p1, p2, p3, p4, rfl,
+    fun x w hx => dot_pad_zeros q x w tr.nOverlaps hx⟩
+
+example : ∃ r, decompAugmentCompact exCi (⟨1, 1, #[0, 1], #[0], #[4]⟩ : Csc Int) #[9] exA exb = .ok r := by
+  obtain ⟨_, _, _, _, _, _, _, h, _⟩ := compact_objective exCi (⟨1, 1, #[0, 1], #[0], #[4]⟩ : Csc Int) #[9]
+    exA exb exHyp ex_hnz ex_hpos rfl
+  exact ⟨_, h⟩
+
+open Classical in
+/-- [F] `compact_roundtrip`: on valid input let `tr` be the triplets of the compact problem and let
+`(xx, old_s)` satisfy its equalities (`xx` the `n + n_overlaps` variables, `old_s` the slack).  Then
+`decomp_reverse_compact`, run on the cone list and the cone maps that the transformation itself
+produced, does not panic and returns `(s, z)` of the ORIGINAL length `m` such that every original row
+`r` satisfies `(A x)[r] + s[r] = b[r]`, where `x` is the first `n` entries of `xx` (the original
+entries have column index `A_J[k] < n`; `decomp_reverse` copies `x = xx[0..n]`).  The reversed point
+satisfies the original equalities (`compact_equiv` ∘ `compact_equiv_slack` ∘ `reverse_compact`). -/
+theorem compact_roundtrip [Ring α] [BEq α] (ci : ChordalInfo) (A : Csc α) (b : Array α)
+    (H : CompactHyp ci A (bIndOf b)) (hnz : A.colptr.getD A.n 0 ≤ A.nzval.size)
+    (hpos : A.colptr.getD A.n 0 + 2 * ci.ovBefore ci.initCones.size ≠ 0)
+    (hfit : ∀ c, c < ci.initCones.size → ci.rs c + ci.nv c ≤ ci.initDims.2) :
+    ∃ tr, findCompactTriplets ci A b = .ok tr ∧
+      (∀ k, k < A.colptr.getD A.n 0 → tr.AaJ.getD k 0 < A.n) ∧
+      ∀ (xx : Nat → α) (oldS oldZ : Array α), tr.dim ≤ oldS.size → tr.dim ≤ oldZ.size →
+        (∀ ρ, ρ < tr.dim →
+          (∑ k ∈ Finset.range tr.AaI.size,
+              if tr.AaI.getD k 0 = ρ then tr.AaV.getD k 0 * xx (tr.AaJ.getD k 0) else 0) + oldS.getD ρ 0 =
+          ∑ k ∈ Finset.range tr.bInd.size, if tr.baI.getD k 0 = ρ then tr.bVal.getD k 0 else 0) →
+        ∃ s z, decompReverseCompact ci tr.coneMaps tr.conesNew oldS oldZ = .ok (s, z) ∧
+          s.size = ci.initDims.2 ∧ z.size = ci.initDims.2 ∧
+          ∀ r,
+            (∑ k ∈ Finset.range (A.colptr.getD A.n 0),
+                if A.rowval.getD k 0 = r then A.nzval.getD k 0 * xx (tr.AaJ.getD k 0) else 0) +
+              s.getD r 0 =
+            ∑ k ∈ Finset.range tr.bInd.size, if tr.bInd.getD k 0 = r then tr.bVal.getD k 0 else 0 :=
+  Clarabel.Chordal.compact_roundtrip ci A b H hnz hpos hfit
+
+example : ∃ tr, findCompactTriplets exCi exA exb = .ok tr := by
+  obtain ⟨tr, h, _⟩ := compact_roundtrip exCi exA exb exHyp ex_hnz ex_hpos (by
+    intro c hc
+    have : c = 0 := by
+      have : c < 1 := hc
+      omega
+    subst this; decide)
+  exact ⟨tr, h⟩
+
+/-- [F] `standard_roundtrip`: let `(x, y)` and the slack `(s₀, s̃)`, `s₀ = 0` (zero cone), satisfy the
+augmented equalities `[A H; 0 -I](x, y) + (s₀, s̃) = (b, 0)` of the standard form (`ax` stands for
+`A x`).  Then `decomp_reverse_standard` applied to `old_s = (s₀, s̃)` does not panic and returns
+`(s, z)` of the original length `m` with `y = s̃`, `s = H s̃` (sum of the scattered blocks) and
+`A x + s = b` in every row (`standard_equiv_blocks` ∘ `reverse_standard_blocks`). -/
+theorem standard_roundtrip [Ring α] [Div α] [LT α] [DecidableLT α] (ci : ChordalInfo) (h : StdH)
+    (hok : ci.findStandardHAndCones = .ok h) (hci : ci.StdOK) (s0 st oldZ : Array α)
+    (ax b y : Nat → α) (hs0 : s0.size = h.rows) (hst : st.size = h.lenH)
+    (hZ : oldZ.size = h.rows + h.lenH)
+    (haug : (∀ r, r < h.rows → ax r + blockSum (stdBlocks ci) 0 y r + 0 = b r) ∧
+      (∀ j, j < h.lenH → - y j + st.getD j 0 = 0)) :
+    ∃ s z : Array α, decompReverseStandard h h.rows (s0 ++ st) oldZ = .ok (s, z) ∧
+      s.size = h.rows ∧ z.size = h.rows ∧
+      (∀ j, j < h.lenH → y j = st.getD j 0) ∧
+      (∀ r, r < h.rows → s.getD r 0 = blockSum (stdBlocks ci) 0 (fun j => st.getD j 0) r) ∧
+      ∀ r, r < h.rows → ax r + s.getD r 0 = b r :=
+  Clarabel.Chordal.standard_roundtrip ci h hok hci s0 st oldZ ax b y hs0 hst hZ haug
+
+/-- non-vacuity of `standard_roundtrip`: `x = 0`, `y = s̃ = (10, 1, 2, 3, 4, 5, 6)`, `b = H s̃` -/
+example := standard_roundtrip (α := Rat) exStdCi exStdH exStd_ok exStdCi_ok
+  (Array.replicate 7 0) #[10, 1, 2, 3, 4, 5, 6] (Array.replicate 14 0) (fun _ => 0)
+  (fun r => blockSum (stdBlocks exStdCi) 0 (fun j => (#[10, 1, 2, 3, 4, 5, 6] : Array Rat).getD j 0) r)
+  (fun j => (#[10, 1, 2, 3, 4, 5, 6] : Array Rat).getD j 0) rfl rfl rfl
+  ⟨fun r _ => by simp, fun j _ => by simp⟩
+
+/-! ## the completion recurrence of `psd_complete`
+(`ClarabelProofs/Lemmas/ChordalCompletionRecurrence.lean`)
+
+Index sets of pass `j` (tree coordinates): `ν = snodeAt j`, `α = sepAt j`, `η = etaAt t N j`
+(the vertices after `ν[0]` outside clique `j`).  `StepFormula t N j W Y` says
+`W[(η[a], ν[b])] = W[(ν[b], η[a])] = Σ_k W[(η[a], α[k])] · Y[k][b]`, i.e. `Wην = Wηα · Y = (Wνη)ᵀ`;
+`ProductOf t N j W Y f` says that the external step returned `f = ` entries of `Wηα · Y` computed on
+the state `W` it was given; `blockAA` / `blockAN` are the blocks `Wαα`, `Wαν`. -/
+
+/-- [S] `completion_step_values`: pass `j` of the main loop on a valid tree, given the values `f`
+of the external step: it does not panic, stores `f (a, b)` at `W[(η[a], ν[b])]` and at
+`W[(ν[b], η[a])]` (every position written exactly once) and changes nothing else. -/
+theorem completion_step_values {α : Type} (ext : Nat → Array α → MErr (Nat × Nat → α))
+    {t : SuperNodeTree} {N : Nat} (h : ValidTree t N) {j : Nat} (hj : j < t.nCliques)
+    (W : Array α) (hW : W.size = N * N) (f : Nat × Nat → α) (hf : ext j W = .ok f) :
+    ∃ W', psdCompleteStepData ext t N j W = .ok W' ∧ W'.size = N * N ∧
+      (∀ k, k ∉ (stepPositions t N j).map (linIdx N) → W'[k]? = W[k]?) ∧
+      (∀ a b x v, (etaAt t N j)[a]? = some x → (t.snodeAt j)[b]? = some v →
+        W'[linIdx N (x, v)]? = some (f (a, b)) ∧ W'[linIdx N (v, x)]? = some (f (a, b))) :=
+  psdCompleteStepData_values ext h hj W hW f hf
+
+example : ∃ W', psdCompleteStepData (α := Nat) (fun _ _ => .ok (fun _ => 7)) exPattern.sntree 3 0
+    #[1, 2, 0, 2, 3, 4, 0, 4, 5] = .ok W' :=
+  let ⟨W', h, _⟩ := completion_step_values (α := Nat) (fun _ _ => .ok (fun _ => 7))
+    (t := exPattern.sntree) (N := 3) exPattern_valid.tree (j := 0) (by decide)
+    #[1, 2, 0, 2, 3, 4, 0, 4, 5] rfl _ rfl
+  ⟨W', h⟩
+
+/-- [F] `completion_recurrence`: let `C j Wαα Wαν Y` be any contract between the blocks handed to
+the solver in pass `j` and its result `Y` (Cholesky: `Wαα · Y = Wαν`; SVD fallback:
+`Y = Wαα⁺ · Wαν`).  IF in every pass the external step (LAPACK / BLAS, a parameter of the model)
+returns the entries of `Wηα · Y` for a `Y` satisfying the contract on the state it is given, and
+`psd_complete` returns `B`, THEN `B` is the un-permuted copy `B[(ordering[x], ordering[y])] =
+W[(x, y)]` of a matrix `W` on which EVERY pass `j = 0, …, n_cliques - 2` has a `Y` satisfying the
+contract with the FINAL blocks `Wαα`, `Wαν` and `Wην = Wηα · Y = (Wνη)ᵀ` — the completion formula
+`Wην = Wηα Wαα⁺ Wαν` of Vandenberghe–Andersen holds on the completed matrix for every clique
+(the blocks read and written by pass `j` are not touched by the later passes).  That the formula
+yields a POSITIVE SEMIDEFINITE completion is the Grone–Johnson–Sá–Wolkowicz theorem (assumed). -/
+theorem completion_recurrence {α : Type} [Semiring α] (ext : Nat → Array α → MErr (Nat × Nat → α))
+    {p : SPattern} (h : ValidPattern p)
+    (C : Nat → (Nat → Nat → α) → (Nat → Nat → α) → (Nat → Nat → α) → Prop)
+    (hext : ∀ j W0 f, j < p.sntree.nCliques → W0.size = p.ordering.size * p.ordering.size →
+      ext j W0 = .ok f →
+      ∃ Y, C j (blockAA p.sntree p.ordering.size j W0) (blockAN p.sntree p.ordering.size j W0) Y ∧
+        ProductOf p.sntree p.ordering.size j W0 Y f)
+    (A B : Array α) (hB : psdComplete ext A p.ordering.size p = .ok B) :
+    ∃ W : Array α, W.size = p.ordering.size * p.ordering.size ∧
+      (∀ x y, x < p.ordering.size → y < p.ordering.size →
+        B[linIdx p.ordering.size (p.ordering.getD x 0, p.ordering.getD y 0)]? =
+          W[linIdx p.ordering.size (x, y)]?) ∧
+      ∀ j, j + 1 < p.sntree.nCliques →
+        ∃ Y, C j (blockAA p.sntree p.ordering.size j W) (blockAN p.sntree p.ordering.size j W) Y ∧
+          StepFormula p.sntree p.ordering.size j W Y :=
+  psdComplete_recurrence ext h C hext A B hB
+
+/-- non-vacuity of `completion_recurrence` for EVERY valid pattern and `N × N` input: the external
+step `productExt` really computes `Wηα · Y` with `Y := Wαν` (contract `Y = Wαν`: the solve with
+`Wαα = I`); `psd_complete` returns (`completion_no_panic`) and the theorem applies -/
+example (p : SPattern) (h : ValidPattern p) (A : Array Int)
+    (hA : A.size = p.ordering.size * p.ordering.size) :
+    ∃ B W : Array Int, psdComplete (productExt p.sntree p.ordering.size) A p.ordering.size p = .ok B ∧
+      ∀ j, j + 1 < p.sntree.nCliques →
+        StepFormula p.sntree p.ordering.size j W (blockAN p.sntree p.ordering.size j W) := by
+  obtain ⟨B, hB⟩ := completion_no_panic (productExt p.sntree p.ordering.size) (fun _ _ => ⟨_, rfl⟩) h A hA
+  obtain ⟨W, _, _, hW⟩ := completion_recurrence (productExt p.sntree p.ordering.size) h
+    (fun _ _ AN Y => Y = AN)
+    (fun j W0 f _ _ hf => productExt_contract p.sntree p.ordering.size j W0 f hf) A B hB
+  refine ⟨B, W, hB, fun j hj => ?_⟩
+  obtain ⟨Y, hY, hF⟩ := hW j hj
+  rw [← hY]; exact hF
+
+/-- … and the model computes: on the path `0 — 1 — 2` with `W[(2,1)] = 4`, `W[(1,0)] = 2` the
+completed entry is `W[(2,0)] = W[(0,2)] = 4 · 2` -/
+example : psdComplete (α := Int) (productExt exPattern.sntree 3) #[1, 2, 0, 2, 3, 4, 0, 4, 5] 3 exPattern =
+    .ok #[1, 2, 8, 2, 3, 4, 8, 4, 5] := by decide
 
 end Clarabel.C18
